@@ -118,6 +118,10 @@ impl Sched {
 }
 
 fn hook(_site: &'static str) {
+    // in the fine-grained build every function entry is a point already (verif_hook::point included)
+    if FINE_ON.load(std::sync::atomic::Ordering::Relaxed) {
+        return;
+    }
     if let Some(me) = MY_ID.with(|c| c.get()) {
         if let Some(s) = current_sched() {
             s.yield_point(me);
@@ -135,10 +139,21 @@ pub fn fine_point() {
     // thread-local access is valid only while the thread is alive and registered
     let me = MY_ID.try_with(|c| c.get()).ok().flatten();
     if let Some(me) = me {
+        // generic std code is shared between crates in this build, so the scheduler's own use of, say,
+        // Range::next lands here again: ignore points reached from inside the scheduler
+        let entered = IN_SCHED.try_with(|f| f.replace(true)).unwrap_or(true);
+        if entered {
+            return;
+        }
         if let Some(s) = current_sched() {
             s.yield_point(me);
         }
+        let _ = IN_SCHED.try_with(|f| f.set(false));
     }
+}
+
+thread_local! {
+    static IN_SCHED: Cell<bool> = Cell::new(false);
 }
 
 /// Configurations of the fine-grained exploration: tiny calls (a few hundred function entries each),
